@@ -963,6 +963,21 @@ def FreeSrc_unique_job_hpp : String :=
 def FreeSrc_submit_hpp : String :=
   "#pragma once #include <yaclib/exe/detail/unique_job.hpp> #include <yaclib/exe/executor.hpp> #include <utility> namespace yaclib { template <typename Func> void Submit(IExecutor& executor, Func&& f) { static_assert(!std::is_base_of_v<Job, std::decay_t<Func>>, \"Please use executor.Submit(job)\"); auto* job = detail::MakeUniqueJob(std::forward<Func>(f)); executor.Submit(*job); } }"
 
+def TraitSrc_type_traits_impl_hpp : String :=
+  "#pragma once #include <yaclib/fwd.hpp> #include <type_traits> namespace yaclib::detail { template <typename...> struct Head; template <typename T, typename... Args> struct Head<T, Args...> final { using Type = T; }; template <typename Func, typename... Args> struct IsInvocable final { static constexpr bool Value = std::is_invocable_v<Func, Args...>; }; template <typename Func> struct IsInvocable<Func, void> final { static constexpr bool Value = std::is_invocable_v<Func>; }; template <typename Func, typename... Args> struct Invoke final { using Type = std::invoke_result_t<Func, Args...>; }; template <typename Func> struct Invoke<Func, void> final { using Type = std::invoke_result_t<Func>; }; template <template <typename...> typename Instance, typename...> struct IsInstantiationOf final { static constexpr bool Value = false; }; template <template <typename...> typename Instance, typename... Args> struct IsInstantiationOf<Instance, Instance<Args...>> final { static constexpr bool Value = true; }; template <template <typename...> typename Instance, typename T> struct InstantiationTypes final { using Value = T; using Error = T; }; template <template <typename...> typename Instance, typename V, typename E> struct InstantiationTypes<Instance, Instance<V, E>> final { using Value = V; using Error = E; }; template <typename T> struct AsyncTypes final { using Value = T; using Error = T; }; template <typename V, typename E> struct AsyncTypes<FutureBase<V, E>> final { using Value = V; using Error = E; }; template <typename V, typename E> struct AsyncTypes<Future<V, E>> final { using Value = V; using Error = E; }; template <typename V, typename E> struct AsyncTypes<FutureOn<V, E>> final { using Value = V; using Error = E; }; template <typename V, typename E> struct AsyncTypes<SharedFutureBase<V, E>> final { using Value = V; using Error = E; }; template <typename V, typename E> struct AsyncTypes<SharedFuture<V, E>> final { using Value = V; using Error = E; }; template <typename V, typename E> struct AsyncTypes<SharedFutureOn<V, E>> final { using Value = V; using Error = E; }; }"
+
+def TraitSrc_type_traits_hpp : String :=
+  "#pragma once #include <yaclib/fwd.hpp> #include <yaclib/util/detail/type_traits_impl.hpp> #include <exception> #include <type_traits> #include <utility> #include <variant> namespace yaclib { template <typename T> using remove_cvref_t = std::remove_cv_t<std::remove_reference_t<T>>; template <typename... Args> using head_t = typename detail::Head<Args...>::Type; template <typename Func, typename... Arg> inline constexpr bool is_invocable_v = detail::IsInvocable<Func, Arg...>::Value; template <typename Func, typename... Arg> using invoke_t = typename detail::Invoke<Func, Arg...>::Type; template <typename T> inline constexpr bool is_result_v = detail::IsInstantiationOf<Result, T>::Value; template <typename T> using result_value_t = typename detail::InstantiationTypes<Result, T>::Value; template <typename T> using result_error_t = typename detail::InstantiationTypes<Result, T>::Error; template <typename T> using task_value_t = typename detail::InstantiationTypes<Task, T>::Value; template <typename T> using task_error_t = typename detail::InstantiationTypes<Task, T>::Error; template <typename T> inline constexpr bool is_future_base_v = detail::IsInstantiationOf<FutureBase, T>::Value || detail::IsInstantiationOf<Future, T>::Value || detail::IsInstantiationOf<FutureOn, T>::Value; template <typename T> inline constexpr bool is_shared_future_base_v = detail::IsInstantiationOf<SharedFutureBase, T>::Value || detail::IsInstantiationOf<SharedFuture, T>::Value || detail::IsInstantiationOf<SharedFutureOn, T>::Value; template <typename T> inline constexpr bool is_task_v = detail::IsInstantiationOf<Task, T>::Value; template <typename T> inline constexpr bool is_waitable_v = is_shared_future_base_v<remove_cvref_t<T>> || (!std::is_const_v<std::remove_reference_t<T>> && is_future_base_v<remove_cvref_t<T>>); template <typename T> inline constexpr bool is_waitable_with_timeout_v = (!std::is_const_v<std::remove_reference_t<T>> && is_future_base_v<remove_cvref_t<T>>); template <typename T> inline constexpr bool is_combinator_input_v = (is_shared_future_base_v<T> || is_future_base_v<T>); template <typename T> using async_value_t = typename detail::AsyncTypes<T>::Value; template <typename T> using async_error_t = typename detail::AsyncTypes<T>::Error; template <bool Condition, typename T> decltype(auto) move_if(T&& arg) noexcept { if constexpr (Condition) { return std::move(std::forward<T>(arg)); } else { return std::forward<T>(arg); } } template <typename T, typename... List> inline constexpr auto kCount = (std::size_t{std::is_same_v<T, List> ? 1 : 0} + ...); template <typename T, typename... Ts> inline constexpr auto kContains = (std::is_same_v<T, Ts> || ...); template <typename T, typename Tuple> struct Prepend; template <typename T, typename... Ts> struct Prepend<T, std::tuple<Ts...>> { using Type = std::tuple<T, Ts...>; }; template <typename Tuple> struct Tail; template <typename T, typename... Ts> struct Tail<std::tuple<T, Ts...>> { using Type = std::tuple<Ts...>; }; template <typename Tuple> using tail_t = typename Tail<Tuple>::Type; template <template <typename> typename F, typename Tuple> struct Filter; template <template <typename> typename F> struct Filter<F, std::tuple<>> { using Type = std::tuple<>; }; template <template <typename> typename F, typename T> struct Filter<F, std::tuple<T>> { using Type = std::conditional_t<F<T>::Value, std::tuple<T>, std::tuple<>>; }; template <template <typename> typename F, typename T, typename... Ts> struct Filter<F, std::tuple<T, Ts...>> { private: using PrevType = typename Filter<F, std::tuple<Ts...>>::Type; public: using Type = std::conditional_t<F<T>::Value, typename Prepend<T, PrevType>::Type, PrevType>; }; template <typename Tuple> struct Unique; template <> struct Unique<std::tuple<>> { using Type = std::tuple<>; }; template <typename T> struct Unique<std::tuple<T>> { using Type = std::tuple<T>; }; template <typename T, typename... Ts> struct Unique<std::tuple<T, Ts...>> { private: using PrevType = typename Unique<std::tuple<Ts...>>::Type; public: using Type = std::conditional_t<kContains<T, Ts...>, PrevType, typename Prepend<T, PrevType>::Type>; }; template <typename Tuple> struct Variant; template <typename... Ts> struct Variant<std::tuple<Ts...>> { using Type = std::variant<Ts...>; }; template <typename T> struct WrapVoid { using Type = T; }; template <> struct WrapVoid<void> { using Type = Unit; }; template <typename T> using wrap_void_t = typename WrapVoid<T>::Type; template <typename Tuple> struct MaybeVariant; template <typename T> struct MaybeVariant<std::tuple<T>> { using Type = T; }; template <typename... Ts> struct MaybeVariant<std::tuple<Ts...>> { using Type = std::variant<wrap_void_t<Ts>...>; }; template <std::size_t FromIndex, std::size_t ToIndex, typename FromTuple, typename ToTuple> struct TranslateIndexImpl; template <std::size_t ToIndex, typename... From, typename... To> struct TranslateIndexImpl<0, ToIndex, std::tuple<From...>, std::tuple<To...>> { static_assert(sizeof...(From) >= sizeof...(To)); static constexpr std::size_t Index() { return ToIndex; } }; template <std::size_t FromIndex, std::size_t ToIndex, typename... From, typename... To> struct TranslateIndexImpl<FromIndex, ToIndex, std::tuple<From...>, std::tuple<To...>> { static_assert(sizeof...(From) >= sizeof...(To)); static_assert(FromIndex != 0); static constexpr std::size_t Index() { if constexpr (std::is_same_v<head_t<From...>, head_t<To...>>) { return TranslateIndexImpl<FromIndex - 1, ToIndex + 1, tail_t<std::tuple<From...>>, tail_t<std::tuple<To...>>>::Index(); } else { return TranslateIndexImpl<FromIndex - 1, ToIndex, tail_t<std::tuple<From...>>, std::tuple<To...>>::Index(); } } }; template <std::size_t FromIndex, typename FromTuple, typename ToTuple> inline constexpr std::size_t translate_index_v = TranslateIndexImpl<FromIndex, 0, FromTuple, ToTuple>::Index(); template <typename T, typename Tuple> struct IndexOf; template <typename T, typename... Ts> struct IndexOf<T, std::tuple<Ts...>> { static_assert(sizeof...(Ts) > 0); static constexpr std::size_t Index() { if constexpr (std::is_same_v<T, head_t<Ts...>>) { return 0; } else { return 1 + IndexOf<T, tail_t<std::tuple<Ts...>>>::Index(); } } }; template <typename T, typename Tuple> inline constexpr std::size_t index_of_v = IndexOf<T, Tuple>::Index(); template <typename T> constexpr bool Check() noexcept { static_assert(!std::is_reference_v<T>, \"T cannot be V&, just use pointer or std::reference_wrapper\"); static_assert(!std::is_const_v<T>, \"T cannot be const, because it's unnecessary\"); static_assert(!std::is_volatile_v<T>, \"T cannot be volatile, because it's unnecessary\"); static_assert(!is_result_v<T>, \"T cannot be Result, because it's ambiguous\"); static_assert(!is_future_base_v<T>, \"T cannot be Future, because it's ambiguous\"); static_assert(!is_task_v<T>, \"T cannot be Task, because it's ambiguous\"); static_assert(!std::is_same_v<T, std::exception_ptr>, \"T cannot be std::exception_ptr, because it's ambiguous\"); static_assert(!std::is_same_v<T, Unit>, \"T cannot be Unit, because Unit for internal instead of void usage\"); return true; } }"
+
+def ShareSrc_share_hpp : String :=
+  "#pragma once #include <yaclib/async/connect.hpp> #include <yaclib/async/contract.hpp> #include <yaclib/async/shared_future.hpp> #include <yaclib/exe/executor.hpp> namespace yaclib { template <typename V, typename E> Future<V, E> Share(const SharedFutureBase<V, E>& future) { auto [f, p] = MakeContract<V, E>(); Connect(future, std::move(p)); return std::move(f); } template <typename V, typename E> FutureOn<V, E> Share(const SharedFutureBase<V, E>& future, IExecutor& executor) { auto [f, p] = MakeContractOn<V, E>(executor); Connect(future, std::move(p)); return std::move(f); } template <typename V, typename E> Future<V, E> Share(SharedPromise<V, E>& promise) { YACLIB_ASSERT(promise.Valid()); auto [f, p] = MakeContract<V, E>(); Connect(promise, std::move(p)); return std::move(f); } template <typename V, typename E> FutureOn<V, E> Share(SharedPromise<V, E>& promise, IExecutor& executor) { YACLIB_ASSERT(promise.Valid()); auto [f, p] = MakeContractOn<V, E>(executor); Connect(promise, std::move(p)); return std::move(f); } }"
+
+def ShareSrc_split_hpp : String :=
+  "#pragma once #include <yaclib/async/connect.hpp> #include <yaclib/async/future.hpp> #include <yaclib/async/shared_contract.hpp> namespace yaclib { template <typename V, typename E> SharedFuture<V, E> Split(FutureBase<V, E>&& future) { static_assert(std::is_copy_constructible_v<Result<V, E>>, \"Cannot split this Result<V, E>\"); auto [f, p] = MakeSharedContract<V, E>(); Connect(std::move(future), std::move(p)); return std::move(f); } template <typename V, typename E> SharedFuture<V, E> Split(SharedPromise<V, E>& promise) { YACLIB_ASSERT(promise.Valid()); return SharedFuture<V, E>{promise.GetCore()}; } }"
+
+def ShareSrc_connect_hpp : String :=
+  "#pragma once #include <yaclib/async/future.hpp> #include <yaclib/async/promise.hpp> #include <yaclib/async/shared_future.hpp> #include <yaclib/async/shared_promise.hpp> namespace yaclib { template <typename V, typename E> void Connect(FutureBase<V, E>&& f, Promise<V, E>&& p) { static_assert(std::is_move_constructible_v<Result<V, E>>); YACLIB_ASSERT(f.Valid()); YACLIB_ASSERT(p.Valid()); YACLIB_ASSERT(f.GetCore() != p.GetCore()); if (f.GetCore()->SetCallback(*p.GetCore().Get())) { f.GetCore().Release(); p.GetCore().Release(); } else { std::move(p).Set(std::move(f).Touch()); } } template <typename V, typename E> void Connect(const SharedFutureBase<V, E>& f, Promise<V, E>&& p) { YACLIB_ASSERT(f.Valid()); YACLIB_ASSERT(p.Valid()); if (f.GetCore()->SetCallback(*p.GetCore().Get())) { p.GetCore().Release(); } else { std::move(p).Set(f.Touch()); } } template <typename V, typename E> void Connect(FutureBase<V, E>&& f, SharedPromise<V, E>&& p) { YACLIB_ASSERT(f.Valid()); YACLIB_ASSERT(p.Valid()); if (f.GetCore()->SetCallback(*p.GetCore().Get())) { f.GetCore().Release(); p.GetCore().Release(); } else { std::move(p).Set(std::move(f).Touch()); } } template <typename V, typename E> void Connect(const SharedFutureBase<V, E>& f, SharedPromise<V, E>&& p) { YACLIB_ASSERT(f.Valid()); YACLIB_ASSERT(p.Valid()); YACLIB_ASSERT(f.GetCore() != p.GetCore()); if (f.GetCore()->SetCallback(*p.GetCore().Get())) { p.GetCore().Release(); } else { std::move(p).Set(f.Touch()); } } template <typename V, typename E> void Connect(SharedPromise<V, E>& primary, Promise<V, E>&& subsumed) { YACLIB_ASSERT(primary.Valid()); YACLIB_ASSERT(subsumed.Valid()); auto subsumed_core = subsumed.GetCore().Release(); std::ignore = primary.GetCore()->SetCallback(*subsumed_core); } template <typename V, typename E> void Connect(SharedPromise<V, E>& primary, SharedPromise<V, E>&& subsumed) { YACLIB_ASSERT(primary.Valid()); YACLIB_ASSERT(subsumed.Valid()); auto subsumed_core = subsumed.GetCore().Release(); std::ignore = primary.GetCore()->SetCallback(*subsumed_core); } }"
+
 def ResultSrc_result_hpp : String :=
   "#pragma once #include <yaclib/fwd.hpp> #include <yaclib/util/type_traits.hpp> #include <exception> #include <utility> #include <variant> namespace yaclib { enum class [[nodiscard]] ResultState : unsigned char { Value = 0, Exception = 1, Error = 2, Empty = 3, }; struct [[nodiscard]] StopError final { constexpr StopError(StopTag) noexcept { } constexpr StopError(StopError&&) noexcept = default; constexpr StopError(const StopError&) noexcept = default; constexpr StopError& operator=(StopError&&) noexcept = default; constexpr StopError& operator=(const StopError&) noexcept = default; static const char* What() noexcept { return \"yaclib::StopError\"; } }; YACLIB_DEFINE_VOID_COMPARE(StopError) template <typename Error> class [[nodiscard]] ResultError final : public std::exception { public: ResultError(ResultError&&) noexcept(std::is_nothrow_move_constructible_v<Error>) = default; ResultError(const ResultError&) noexcept(std::is_nothrow_copy_constructible_v<Error>) = default; ResultError& operator=(ResultError&&) noexcept(std::is_nothrow_move_assignable_v<Error>) = default; ResultError& operator=(const ResultError&) noexcept(std::is_nothrow_copy_assignable_v<Error>) = default; explicit ResultError(Error&& error) noexcept(std::is_nothrow_move_constructible_v<Error>) : _error{std::move(error)} { } explicit ResultError(const Error& error) noexcept(std::is_nothrow_copy_constructible_v<Error>) : _error{error} { } [[nodiscard]] Error& Get() & noexcept { return _error; } [[nodiscard]] const Error& Get() const& noexcept { return _error; } const char* what() const noexcept final { return _error.What(); } private: Error _error; }; struct ResultEmpty final : std::exception { const char* what() const noexcept final { return \"yaclib::ResultEmpty\"; } }; template <typename ValueT, typename E> class Result final { static_assert(Check<ValueT>(), \"V should be valid\"); static_assert(Check<E>(), \"E should be valid\"); static_assert(!std::is_same_v<ValueT, E>, \"Result cannot be instantiated with same V and E, because it's ambiguous\"); static_assert(std::is_constructible_v<E, StopTag>, \"Error should be constructable from StopTag\"); using V = std::conditional_t<std::is_void_v<ValueT>, Unit, ValueT>; using Variant = std::variant<V, std::exception_ptr, E, std::monostate>; public: Result(Result&& other) noexcept(std::is_nothrow_move_constructible_v<Variant>) = default; Result(const Result& other) noexcept(std::is_nothrow_copy_constructible_v<Variant>) = default; Result& operator=(Result&& other) noexcept(std::is_nothrow_move_assignable_v<Variant>) = default; Result& operator=(const Result& other) noexcept(std::is_nothrow_copy_assignable_v<Variant>) = default; template <typename... Args, typename = std::enable_if_t<(sizeof...(Args) > 1 || !std::is_same_v<std::decay_t<head_t<Args&&...>>, Result>), void>> Result(Args&&... args) noexcept(std::is_nothrow_constructible_v<Variant, std::in_place_type_t<V>, Args&&...>) : Result{std::in_place, std::forward<Args>(args)...} { } template <typename... Args> Result(std::in_place_t, Args&&... args) noexcept(std::is_nothrow_constructible_v<Variant, std::in_place_type_t<V>, Args&&...>) : _result{std::in_place_type<V>, std::forward<Args>(args)...} { } Result(std::exception_ptr exception) noexcept : _result{std::in_place_type<std::exception_ptr>, std::move(exception)} { } Result(E error) noexcept : _result{std::in_place_type<E>, std::move(error)} { } Result(StopTag tag) noexcept : _result{std::in_place_type<E>, tag} { } Result() noexcept : _result{std::monostate{}} { } template <typename Arg, typename = std::enable_if_t<!is_result_v<std::decay_t<Arg>>, void>> Result& operator=(Arg&& arg) noexcept(std::is_nothrow_assignable_v<Variant, Arg>) { _result = std::forward<Arg>(arg); return *this; } [[nodiscard]] explicit operator bool() const noexcept { return State() == ResultState::Value; } void Ok() & = delete; void Ok() const&& = delete; void Value() & = delete; void Value() const&& = delete; void Exception() & = delete; void Exception() const&& = delete; void Error() & = delete; void Error() const&& = delete; [[nodiscard]] V&& Ok() && { return Get(std::move(*this)); } [[nodiscard]] const V& Ok() const& { return Get(*this); } [[nodiscard]] ResultState State() const noexcept { return ResultState{static_cast<unsigned char>(_result.index())}; } [[nodiscard]] V&& Value() && noexcept { return std::get<V>(std::move(_result)); } [[nodiscard]] const V& Value() const& noexcept { return std::get<V>(_result); } [[nodiscard]] std::exception_ptr&& Exception() && noexcept { return std::get<std::exception_ptr>(std::move(_result)); } [[nodiscard]] const std::exception_ptr& Exception() const& noexcept { return std::get<std::exception_ptr>(_result); } [[nodiscard]] E&& Error() && noexcept { return std::get<E>(std::move(_result)); } [[nodiscard]] const E& Error() const& noexcept { return std::get<E>(_result); } [[nodiscard]] Variant& Internal() { return _result; } [[nodiscard]] const Variant& Internal() const { return _result; } private: template <typename R> static decltype(auto) Get(R&& r) { switch (r.State()) { case ResultState::Value: return std::forward<R>(r).Value(); case ResultState::Exception: std::rethrow_exception(std::forward<R>(r).Exception()); case ResultState::Error: throw ResultError{std::forward<R>(r).Error()}; default: throw ResultEmpty{}; } } Variant _result; }; extern template class Result<>; }"
 
@@ -1243,7 +1258,7 @@ def WhenSrc_type_traits_inputs : String :=
   "template <typename T> inline constexpr bool is_future_base_v = detail::IsInstantiationOf<FutureBase, T>::Value || detail::IsInstantiationOf<Future, T>::Value || detail::IsInstantiationOf<FutureOn, T>::Value; template <typename T> inline constexpr bool is_shared_future_base_v = detail::IsInstantiationOf<SharedFutureBase, T>::Value || detail::IsInstantiationOf<SharedFuture, T>::Value || detail::IsInstantiationOf<SharedFutureOn, T>::Value; template <typename T> inline constexpr bool is_task_v = detail::IsInstantiationOf<Task, T>::Value; template <typename T> inline constexpr bool is_waitable_v = is_shared_future_base_v<remove_cvref_t<T>> || (!std::is_const_v<std::remove_reference_t<T>> && is_future_base_v<remove_cvref_t<T>>); template <typename T> inline constexpr bool is_waitable_with_timeout_v = (!std::is_const_v<std::remove_reference_t<T>> && is_future_base_v<remove_cvref_t<T>>); template <typename T> inline constexpr bool is_combinator_input_v = (is_shared_future_base_v<T> || is_future_base_v<T>);"
 
 def WhenSrc_type_traits_tuples : String :=
-  "template <typename T, typename... List> inline constexpr auto kCount = (std::size_t{std::is_same_v<T, List> ? 1 : 0} + ...); template <typename T, typename... Ts> inline constexpr auto kContains = (std::is_same_v<T, Ts> || ...); template <typename T, typename Tuple> struct Prepend; template <typename T, typename... Ts> struct Prepend<T, std::tuple<Ts...>> { using Type = std::tuple<T, Ts...>; }; template <typename Tuple> struct Tail; template <typename T, typename... Ts> struct Tail<std::tuple<T, Ts...>> { using Type = std::tuple<Ts...>; }; template <typename Tuple> using tail_t = typename Tail<Tuple>::Type; template <template <typename> typename F, typename Tuple> struct Filter; template <template <typename> typename F> struct Filter<F, std::tuple<>> { using Type = std::tuple<>; }; template <template <typename> typename F, typename T> struct Filter<F, std::tuple<T>> { using Type = std::conditional_t<F<T>::Value, std::tuple<T>, std::tuple<>>; }; template <template <typename> typename F, typename T, typename... Ts> struct Filter<F, std::tuple<T, Ts...>> { private: using PrevType = typename Filter<F, std::tuple<Ts...>>::Type; public: using Type = std::conditional_t<F<T>::Value, typename Prepend<T, PrevType>::Type, PrevType>; }; template <typename Tuple> struct Unique; template <> struct Unique<std::tuple<>> { using Type = std::tuple<>; }; template <typename T> struct Unique<std::tuple<T>> { using Type = std::tuple<T>; }; template <typename T, typename... Ts> struct Unique<std::tuple<T, Ts...>> { private: using PrevType = typename Unique<std::tuple<Ts...>>::Type; public: using Type = std::conditional_t<kContains<T, Ts...>, PrevType, typename Prepend<T, PrevType>::Type>; }; template <typename Tuple> struct Variant; template <typename... Ts> struct Variant<std::tuple<Ts...>> { using Type = std::variant<Ts...>; }; template <typename Tuple> struct MaybeVariant; template <typename T> struct MaybeVariant<std::tuple<T>> { using Type = T; }; template <typename... Ts> struct MaybeVariant<std::tuple<Ts...>> { using Type = std::variant<Ts...>; }; template <typename T> struct WrapVoid { using Type = T; }; template <> struct WrapVoid<void> { using Type = Unit; }; template <typename T> using wrap_void_t = typename WrapVoid<T>::Type; template <std::size_t FromIndex, std::size_t ToIndex, typename FromTuple, typename ToTuple> struct TranslateIndexImpl; template <std::size_t ToIndex, typename... From, typename... To> struct TranslateIndexImpl<0, ToIndex, std::tuple<From...>, std::tuple<To...>> { static_assert(sizeof...(From) >= sizeof...(To)); static constexpr std::size_t Index() { return ToIndex; } }; template <std::size_t FromIndex, std::size_t ToIndex, typename... From, typename... To> struct TranslateIndexImpl<FromIndex, ToIndex, std::tuple<From...>, std::tuple<To...>> { static_assert(sizeof...(From) >= sizeof...(To)); static_assert(FromIndex != 0); static constexpr std::size_t Index() { if constexpr (std::is_same_v<head_t<From...>, head_t<To...>>) { return TranslateIndexImpl<FromIndex - 1, ToIndex + 1, tail_t<std::tuple<From...>>, tail_t<std::tuple<To...>>>::Index(); } else { return TranslateIndexImpl<FromIndex - 1, ToIndex, tail_t<std::tuple<From...>>, std::tuple<To...>>::Index(); } } }; template <std::size_t FromIndex, typename FromTuple, typename ToTuple> inline constexpr std::size_t translate_index_v = TranslateIndexImpl<FromIndex, 0, FromTuple, ToTuple>::Index(); template <typename T, typename Tuple> struct IndexOf; template <typename T, typename... Ts> struct IndexOf<T, std::tuple<Ts...>> { static_assert(sizeof...(Ts) > 0); static constexpr std::size_t Index() { if constexpr (std::is_same_v<T, head_t<Ts...>>) { return 0; } else { return 1 + IndexOf<T, tail_t<std::tuple<Ts...>>>::Index(); } } }; template <typename T, typename Tuple> inline constexpr std::size_t index_of_v = IndexOf<T, Tuple>::Index();"
+  "template <typename T, typename... List> inline constexpr auto kCount = (std::size_t{std::is_same_v<T, List> ? 1 : 0} + ...); template <typename T, typename... Ts> inline constexpr auto kContains = (std::is_same_v<T, Ts> || ...); template <typename T, typename Tuple> struct Prepend; template <typename T, typename... Ts> struct Prepend<T, std::tuple<Ts...>> { using Type = std::tuple<T, Ts...>; }; template <typename Tuple> struct Tail; template <typename T, typename... Ts> struct Tail<std::tuple<T, Ts...>> { using Type = std::tuple<Ts...>; }; template <typename Tuple> using tail_t = typename Tail<Tuple>::Type; template <template <typename> typename F, typename Tuple> struct Filter; template <template <typename> typename F> struct Filter<F, std::tuple<>> { using Type = std::tuple<>; }; template <template <typename> typename F, typename T> struct Filter<F, std::tuple<T>> { using Type = std::conditional_t<F<T>::Value, std::tuple<T>, std::tuple<>>; }; template <template <typename> typename F, typename T, typename... Ts> struct Filter<F, std::tuple<T, Ts...>> { private: using PrevType = typename Filter<F, std::tuple<Ts...>>::Type; public: using Type = std::conditional_t<F<T>::Value, typename Prepend<T, PrevType>::Type, PrevType>; }; template <typename Tuple> struct Unique; template <> struct Unique<std::tuple<>> { using Type = std::tuple<>; }; template <typename T> struct Unique<std::tuple<T>> { using Type = std::tuple<T>; }; template <typename T, typename... Ts> struct Unique<std::tuple<T, Ts...>> { private: using PrevType = typename Unique<std::tuple<Ts...>>::Type; public: using Type = std::conditional_t<kContains<T, Ts...>, PrevType, typename Prepend<T, PrevType>::Type>; }; template <typename Tuple> struct Variant; template <typename... Ts> struct Variant<std::tuple<Ts...>> { using Type = std::variant<Ts...>; }; template <typename T> struct WrapVoid { using Type = T; }; template <> struct WrapVoid<void> { using Type = Unit; }; template <typename T> using wrap_void_t = typename WrapVoid<T>::Type; template <typename Tuple> struct MaybeVariant; template <typename T> struct MaybeVariant<std::tuple<T>> { using Type = T; }; template <typename... Ts> struct MaybeVariant<std::tuple<Ts...>> { using Type = std::variant<wrap_void_t<Ts>...>; }; template <std::size_t FromIndex, std::size_t ToIndex, typename FromTuple, typename ToTuple> struct TranslateIndexImpl; template <std::size_t ToIndex, typename... From, typename... To> struct TranslateIndexImpl<0, ToIndex, std::tuple<From...>, std::tuple<To...>> { static_assert(sizeof...(From) >= sizeof...(To)); static constexpr std::size_t Index() { return ToIndex; } }; template <std::size_t FromIndex, std::size_t ToIndex, typename... From, typename... To> struct TranslateIndexImpl<FromIndex, ToIndex, std::tuple<From...>, std::tuple<To...>> { static_assert(sizeof...(From) >= sizeof...(To)); static_assert(FromIndex != 0); static constexpr std::size_t Index() { if constexpr (std::is_same_v<head_t<From...>, head_t<To...>>) { return TranslateIndexImpl<FromIndex - 1, ToIndex + 1, tail_t<std::tuple<From...>>, tail_t<std::tuple<To...>>>::Index(); } else { return TranslateIndexImpl<FromIndex - 1, ToIndex, tail_t<std::tuple<From...>>, std::tuple<To...>>::Index(); } } }; template <std::size_t FromIndex, typename FromTuple, typename ToTuple> inline constexpr std::size_t translate_index_v = TranslateIndexImpl<FromIndex, 0, FromTuple, ToTuple>::Index(); template <typename T, typename Tuple> struct IndexOf; template <typename T, typename... Ts> struct IndexOf<T, std::tuple<Ts...>> { static_assert(sizeof...(Ts) > 0); static constexpr std::size_t Index() { if constexpr (std::is_same_v<T, head_t<Ts...>>) { return 0; } else { return 1 + IndexOf<T, tail_t<std::tuple<Ts...>>>::Index(); } } }; template <typename T, typename Tuple> inline constexpr std::size_t index_of_v = IndexOf<T, Tuple>::Index();"
 
 def When_StaticCombinator_GetCallbackHelper : String :=
   "GetCallbackHelper() { ifc (kIsOrdered) { return get(callbacks) } else ifc (Value) { return get(callbacks.shared_tuple) } else { return get(callbacks.unique_tuple) } }"
@@ -1358,20 +1373,5 @@ def SetCallbacksDynamic : String :=
 
 def EventHelperCallback_Here : String :=
   "Here(caller) { return event.GetCall().Here(caller) }"
-
-def TraitSrc_type_traits_impl_hpp : String :=
-  "#pragma once #include <yaclib/fwd.hpp> #include <type_traits> namespace yaclib::detail { template <typename...> struct Head; template <typename T, typename... Args> struct Head<T, Args...> final { using Type = T; }; template <typename Func, typename... Args> struct IsInvocable final { static constexpr bool Value = std::is_invocable_v<Func, Args...>; }; template <typename Func> struct IsInvocable<Func, void> final { static constexpr bool Value = std::is_invocable_v<Func>; }; template <typename Func, typename... Args> struct Invoke final { using Type = std::invoke_result_t<Func, Args...>; }; template <typename Func> struct Invoke<Func, void> final { using Type = std::invoke_result_t<Func>; }; template <template <typename...> typename Instance, typename...> struct IsInstantiationOf final { static constexpr bool Value = false; }; template <template <typename...> typename Instance, typename... Args> struct IsInstantiationOf<Instance, Instance<Args...>> final { static constexpr bool Value = true; }; template <template <typename...> typename Instance, typename T> struct InstantiationTypes final { using Value = T; using Error = T; }; template <template <typename...> typename Instance, typename V, typename E> struct InstantiationTypes<Instance, Instance<V, E>> final { using Value = V; using Error = E; }; template <typename T> struct AsyncTypes final { using Value = T; using Error = T; }; template <typename V, typename E> struct AsyncTypes<FutureBase<V, E>> final { using Value = V; using Error = E; }; template <typename V, typename E> struct AsyncTypes<Future<V, E>> final { using Value = V; using Error = E; }; template <typename V, typename E> struct AsyncTypes<FutureOn<V, E>> final { using Value = V; using Error = E; }; template <typename V, typename E> struct AsyncTypes<SharedFutureBase<V, E>> final { using Value = V; using Error = E; }; template <typename V, typename E> struct AsyncTypes<SharedFuture<V, E>> final { using Value = V; using Error = E; }; template <typename V, typename E> struct AsyncTypes<SharedFutureOn<V, E>> final { using Value = V; using Error = E; }; }"
-
-def TraitSrc_type_traits_hpp : String :=
-  "#pragma once #include <yaclib/fwd.hpp> #include <yaclib/util/detail/type_traits_impl.hpp> #include <exception> #include <type_traits> #include <utility> #include <variant> namespace yaclib { template <typename T> using remove_cvref_t = std::remove_cv_t<std::remove_reference_t<T>>; template <typename... Args> using head_t = typename detail::Head<Args...>::Type; template <typename Func, typename... Arg> inline constexpr bool is_invocable_v = detail::IsInvocable<Func, Arg...>::Value; template <typename Func, typename... Arg> using invoke_t = typename detail::Invoke<Func, Arg...>::Type; template <typename T> inline constexpr bool is_result_v = detail::IsInstantiationOf<Result, T>::Value; template <typename T> using result_value_t = typename detail::InstantiationTypes<Result, T>::Value; template <typename T> using result_error_t = typename detail::InstantiationTypes<Result, T>::Error; template <typename T> using task_value_t = typename detail::InstantiationTypes<Task, T>::Value; template <typename T> using task_error_t = typename detail::InstantiationTypes<Task, T>::Error; template <typename T> inline constexpr bool is_future_base_v = detail::IsInstantiationOf<FutureBase, T>::Value || detail::IsInstantiationOf<Future, T>::Value || detail::IsInstantiationOf<FutureOn, T>::Value; template <typename T> inline constexpr bool is_shared_future_base_v = detail::IsInstantiationOf<SharedFutureBase, T>::Value || detail::IsInstantiationOf<SharedFuture, T>::Value || detail::IsInstantiationOf<SharedFutureOn, T>::Value; template <typename T> inline constexpr bool is_task_v = detail::IsInstantiationOf<Task, T>::Value; template <typename T> inline constexpr bool is_waitable_v = is_shared_future_base_v<remove_cvref_t<T>> || (!std::is_const_v<std::remove_reference_t<T>> && is_future_base_v<remove_cvref_t<T>>); template <typename T> inline constexpr bool is_waitable_with_timeout_v = (!std::is_const_v<std::remove_reference_t<T>> && is_future_base_v<remove_cvref_t<T>>); template <typename T> inline constexpr bool is_combinator_input_v = (is_shared_future_base_v<T> || is_future_base_v<T>); template <typename T> using async_value_t = typename detail::AsyncTypes<T>::Value; template <typename T> using async_error_t = typename detail::AsyncTypes<T>::Error; template <bool Condition, typename T> decltype(auto) move_if(T&& arg) noexcept { if constexpr (Condition) { return std::move(std::forward<T>(arg)); } else { return std::forward<T>(arg); } } template <typename T, typename... List> inline constexpr auto kCount = (std::size_t{std::is_same_v<T, List> ? 1 : 0} + ...); template <typename T, typename... Ts> inline constexpr auto kContains = (std::is_same_v<T, Ts> || ...); template <typename T, typename Tuple> struct Prepend; template <typename T, typename... Ts> struct Prepend<T, std::tuple<Ts...>> { using Type = std::tuple<T, Ts...>; }; template <typename Tuple> struct Tail; template <typename T, typename... Ts> struct Tail<std::tuple<T, Ts...>> { using Type = std::tuple<Ts...>; }; template <typename Tuple> using tail_t = typename Tail<Tuple>::Type; template <template <typename> typename F, typename Tuple> struct Filter; template <template <typename> typename F> struct Filter<F, std::tuple<>> { using Type = std::tuple<>; }; template <template <typename> typename F, typename T> struct Filter<F, std::tuple<T>> { using Type = std::conditional_t<F<T>::Value, std::tuple<T>, std::tuple<>>; }; template <template <typename> typename F, typename T, typename... Ts> struct Filter<F, std::tuple<T, Ts...>> { private: using PrevType = typename Filter<F, std::tuple<Ts...>>::Type; public: using Type = std::conditional_t<F<T>::Value, typename Prepend<T, PrevType>::Type, PrevType>; }; template <typename Tuple> struct Unique; template <> struct Unique<std::tuple<>> { using Type = std::tuple<>; }; template <typename T> struct Unique<std::tuple<T>> { using Type = std::tuple<T>; }; template <typename T, typename... Ts> struct Unique<std::tuple<T, Ts...>> { private: using PrevType = typename Unique<std::tuple<Ts...>>::Type; public: using Type = std::conditional_t<kContains<T, Ts...>, PrevType, typename Prepend<T, PrevType>::Type>; }; template <typename Tuple> struct Variant; template <typename... Ts> struct Variant<std::tuple<Ts...>> { using Type = std::variant<Ts...>; }; template <typename Tuple> struct MaybeVariant; template <typename T> struct MaybeVariant<std::tuple<T>> { using Type = T; }; template <typename... Ts> struct MaybeVariant<std::tuple<Ts...>> { using Type = std::variant<Ts...>; }; template <typename T> struct WrapVoid { using Type = T; }; template <> struct WrapVoid<void> { using Type = Unit; }; template <typename T> using wrap_void_t = typename WrapVoid<T>::Type; template <std::size_t FromIndex, std::size_t ToIndex, typename FromTuple, typename ToTuple> struct TranslateIndexImpl; template <std::size_t ToIndex, typename... From, typename... To> struct TranslateIndexImpl<0, ToIndex, std::tuple<From...>, std::tuple<To...>> { static_assert(sizeof...(From) >= sizeof...(To)); static constexpr std::size_t Index() { return ToIndex; } }; template <std::size_t FromIndex, std::size_t ToIndex, typename... From, typename... To> struct TranslateIndexImpl<FromIndex, ToIndex, std::tuple<From...>, std::tuple<To...>> { static_assert(sizeof...(From) >= sizeof...(To)); static_assert(FromIndex != 0); static constexpr std::size_t Index() { if constexpr (std::is_same_v<head_t<From...>, head_t<To...>>) { return TranslateIndexImpl<FromIndex - 1, ToIndex + 1, tail_t<std::tuple<From...>>, tail_t<std::tuple<To...>>>::Index(); } else { return TranslateIndexImpl<FromIndex - 1, ToIndex, tail_t<std::tuple<From...>>, std::tuple<To...>>::Index(); } } }; template <std::size_t FromIndex, typename FromTuple, typename ToTuple> inline constexpr std::size_t translate_index_v = TranslateIndexImpl<FromIndex, 0, FromTuple, ToTuple>::Index(); template <typename T, typename Tuple> struct IndexOf; template <typename T, typename... Ts> struct IndexOf<T, std::tuple<Ts...>> { static_assert(sizeof...(Ts) > 0); static constexpr std::size_t Index() { if constexpr (std::is_same_v<T, head_t<Ts...>>) { return 0; } else { return 1 + IndexOf<T, tail_t<std::tuple<Ts...>>>::Index(); } } }; template <typename T, typename Tuple> inline constexpr std::size_t index_of_v = IndexOf<T, Tuple>::Index(); template <typename T> constexpr bool Check() noexcept { static_assert(!std::is_reference_v<T>, \"T cannot be V&, just use pointer or std::reference_wrapper\"); static_assert(!std::is_const_v<T>, \"T cannot be const, because it's unnecessary\"); static_assert(!std::is_volatile_v<T>, \"T cannot be volatile, because it's unnecessary\"); static_assert(!is_result_v<T>, \"T cannot be Result, because it's ambiguous\"); static_assert(!is_future_base_v<T>, \"T cannot be Future, because it's ambiguous\"); static_assert(!is_task_v<T>, \"T cannot be Task, because it's ambiguous\"); static_assert(!std::is_same_v<T, std::exception_ptr>, \"T cannot be std::exception_ptr, because it's ambiguous\"); static_assert(!std::is_same_v<T, Unit>, \"T cannot be Unit, because Unit for internal instead of void usage\"); return true; } }"
-
-def ShareSrc_share_hpp : String :=
-  "#pragma once #include <yaclib/async/connect.hpp> #include <yaclib/async/contract.hpp> #include <yaclib/async/shared_future.hpp> #include <yaclib/exe/executor.hpp> namespace yaclib { template <typename V, typename E> Future<V, E> Share(const SharedFutureBase<V, E>& future) { auto [f, p] = MakeContract<V, E>(); Connect(future, std::move(p)); return std::move(f); } template <typename V, typename E> FutureOn<V, E> Share(const SharedFutureBase<V, E>& future, IExecutor& executor) { auto [f, p] = MakeContractOn<V, E>(executor); Connect(future, std::move(p)); return std::move(f); } template <typename V, typename E> Future<V, E> Share(SharedPromise<V, E>& promise) { YACLIB_ASSERT(promise.Valid()); auto [f, p] = MakeContract<V, E>(); Connect(promise, std::move(p)); return std::move(f); } template <typename V, typename E> FutureOn<V, E> Share(SharedPromise<V, E>& promise, IExecutor& executor) { YACLIB_ASSERT(promise.Valid()); auto [f, p] = MakeContractOn<V, E>(executor); Connect(promise, std::move(p)); return std::move(f); } }"
-
-def ShareSrc_split_hpp : String :=
-  "#pragma once #include <yaclib/async/connect.hpp> #include <yaclib/async/future.hpp> #include <yaclib/async/shared_contract.hpp> namespace yaclib { template <typename V, typename E> SharedFuture<V, E> Split(FutureBase<V, E>&& future) { static_assert(std::is_copy_constructible_v<Result<V, E>>, \"Cannot split this Result<V, E>\"); auto [f, p] = MakeSharedContract<V, E>(); Connect(std::move(future), std::move(p)); return std::move(f); } template <typename V, typename E> SharedFuture<V, E> Split(SharedPromise<V, E>& promise) { YACLIB_ASSERT(promise.Valid()); return SharedFuture<V, E>{promise.GetCore()}; } }"
-
-def ShareSrc_connect_hpp : String :=
-  "#pragma once #include <yaclib/async/future.hpp> #include <yaclib/async/promise.hpp> #include <yaclib/async/shared_future.hpp> #include <yaclib/async/shared_promise.hpp> namespace yaclib { template <typename V, typename E> void Connect(FutureBase<V, E>&& f, Promise<V, E>&& p) { static_assert(std::is_move_constructible_v<Result<V, E>>); YACLIB_ASSERT(f.Valid()); YACLIB_ASSERT(p.Valid()); YACLIB_ASSERT(f.GetCore() != p.GetCore()); if (f.GetCore()->SetCallback(*p.GetCore().Get())) { f.GetCore().Release(); p.GetCore().Release(); } else { std::move(p).Set(std::move(f).Touch()); } } template <typename V, typename E> void Connect(const SharedFutureBase<V, E>& f, Promise<V, E>&& p) { YACLIB_ASSERT(f.Valid()); YACLIB_ASSERT(p.Valid()); if (f.GetCore()->SetCallback(*p.GetCore().Get())) { p.GetCore().Release(); } else { std::move(p).Set(f.Touch()); } } template <typename V, typename E> void Connect(FutureBase<V, E>&& f, SharedPromise<V, E>&& p) { YACLIB_ASSERT(f.Valid()); YACLIB_ASSERT(p.Valid()); if (f.GetCore()->SetCallback(*p.GetCore().Get())) { f.GetCore().Release(); p.GetCore().Release(); } else { std::move(p).Set(std::move(f).Touch()); } } template <typename V, typename E> void Connect(const SharedFutureBase<V, E>& f, SharedPromise<V, E>&& p) { YACLIB_ASSERT(f.Valid()); YACLIB_ASSERT(p.Valid()); YACLIB_ASSERT(f.GetCore() != p.GetCore()); if (f.GetCore()->SetCallback(*p.GetCore().Get())) { p.GetCore().Release(); } else { std::move(p).Set(f.Touch()); } } template <typename V, typename E> void Connect(SharedPromise<V, E>& primary, Promise<V, E>&& subsumed) { YACLIB_ASSERT(primary.Valid()); YACLIB_ASSERT(subsumed.Valid()); auto subsumed_core = subsumed.GetCore().Release(); std::ignore = primary.GetCore()->SetCallback(*subsumed_core); } template <typename V, typename E> void Connect(SharedPromise<V, E>& primary, SharedPromise<V, E>&& subsumed) { YACLIB_ASSERT(primary.Valid()); YACLIB_ASSERT(subsumed.Valid()); auto subsumed_core = subsumed.GetCore().Release(); std::ignore = primary.GetCore()->SetCallback(*subsumed_core); } }"
 
 end Yaclib.Skeletons
